@@ -214,6 +214,36 @@ def m_into_designation(rng, td):
     return "into-designation-missing"
 
 
+def m_into_ambiguous(rng, td):
+    """no marker for a target while two fields have exactly the target's type"""
+    if "Into" not in td.traits or "Copy" in td.traits or not td.variants:
+        return None
+    vs = [v for v in td.variants if len(v.fields) >= 2]
+    if not vs:
+        return None
+    tgt = RT + "T"
+    kinds = td.notes["kinds"]
+    if not any(e["ty"] == tgt for e in td.tsem["Into"]["targets"]):
+        td.tsem["Into"]["targets"].append({"ty": tgt})
+    bad = rng.choice(vs)
+    for v in td.variants:
+        for f in v.fields:
+            if f.sem.get("Into"):
+                f.sem["Into"] = [e for e in f.sem["Into"] if e["ty"] != tgt]
+        if v is bad:
+            a, b = rng.sample(v.fields, 2)
+            for f in (a, b):
+                keep = {k: s for k, s in f.sem.items() if k in ("Deref", "DerefMut", "Into", "_into")}
+                f.kind, f.sem = kinds["T"], keep
+        else:
+            f = rng.choice(v.fields)
+            keep = {k: s for k, s in f.sem.items() if k in ("Deref", "DerefMut", "Into", "_into")}
+            f.kind, f.sem = kinds["T"], keep
+            if len(v.fields) > 1:
+                f.sem.setdefault("Into", []).append({"ty": tgt})
+    return "into-designation-missing/ambiguous-same-type"
+
+
 def m_trait_not_educed(rng, td):
     absent = [t for t in G.ALL_TRAITS if t not in td.traits]
     if not absent:
@@ -386,7 +416,7 @@ def m_debug_nameless(rng, td):
 
 
 MUTATORS = [m_dup_trait, m_dup_trait_field, m_dup_param, m_dup_param, m_dup_rank, m_dup_into_type, m_dup_into_field,
-            m_default_variant, m_deref_designation, m_into_designation, m_trait_not_educed, m_unknown_trait,
+            m_default_variant, m_deref_designation, m_into_designation, m_into_ambiguous, m_trait_not_educed, m_unknown_trait,
             m_wrong_param, m_wrong_param, m_name_on_positional, m_unit_variant, m_debug_nameless]
 
 
